@@ -17,7 +17,7 @@ warnings.simplefilter("ignore")
 from pymablock import block_diagonalize
 from pymablock.series import zero, one
 
-def gen(rnd, nh_only=False):
+def gen(rnd, nh_only=False, close=False):
     N = rnd.randint(4, 8); cplx = rnd.random() < 0.5; herm = rnd.random() < 0.65
     if nh_only: herm = False; cplx = cplx or rnd.random() < 0.5       # (C05 stream: non-Hermitian mode, complex levels more often)
     rng = np.random.default_rng(rnd.randrange(2**31))
@@ -26,7 +26,7 @@ def gen(rnd, nh_only=False):
     if not herm and cplx: ev = ev + 1j * rng.uniform(-1, 1, size=N)
     dA = rnd.randint(2, N - 2)
     # degeneracy patterns among the explicit levels (positions are shuffled afterwards)
-    pat = rnd.choice(["none", "pair", "two-pairs", "pair", "close-pair"])
+    pat = rnd.choice(["none", "pair", "two-pairs", "pair"] + (["close-pair"] if close else []))      # (close pairs only for the implicit-vs-explicit comparison)
     if pat in ("pair", "two-pairs") and dA >= 2: ev[1] = ev[0]
     if pat == "close-pair": ev[1] = ev[0] + 10.0 ** -rnd.choice([9, 10, 11])      # two explicit levels far closer than anything else, yet far above the degeneracy tolerance
     if pat == "two-pairs" and dA >= 4: ev[3] = ev[2]
@@ -101,7 +101,7 @@ def main(seed, ncases, driver, out, mode="all"):
     failures = []; dist = {}; samples = []; evals = 0; distinct = 0; worst = {"direct": 0.0, "kpm": 0.0}
     for c in range(ncases):
         if skip(c): continue
-        rnd = case_rnd(seed, c); P = gen(rnd, mode == "nh"); N = P["N"]; R, L = P["R"], P["L"]; herm = P["herm"]
+        rnd = case_rnd(seed, c); P = gen(rnd, mode == "nh", close=True); N = P["N"]; R, L = P["R"], P["L"]; herm = P["herm"]
         # carriers: sparse arrays, or the dense arrays themselves (then also: the caller's arrays must come back unchanged)
         dense_in = rnd.random() < 0.3
         conv = (lambda m: np.array(m if np.abs(np.asarray(m).imag).max() > 0 else np.asarray(m).real)) if dense_in else sparse.csr_array
